@@ -121,7 +121,7 @@ def replay_goal(case: Case, values, goal_name):
             "exc": repr(exc) if exc else None, "exc_type": type(exc).__name__ if exc else None}
 
 
-def _solve_goal(case, hyps, goal_term):
+def _solve_goal(case, hyps, goal_term, timeout=None):
     # cheap first: with every non-linear monomial and special function opaque (a weakening, so `unsat` is sound)
     cross = os.environ.get("VERIF_CROSS") == "1"
     r0 = smt.solve(hyps + [tm.not_(goal_term)], timeout_s=min(case.timeout, 5.0), want_model=False, linearize=True, keep_smt2=cross)
@@ -129,7 +129,7 @@ def _solve_goal(case, hyps, goal_term):
         if cross:
             smt.cross_check(r0)
         return r0
-    r = smt.solve(hyps + [tm.not_(goal_term)], timeout_s=case.timeout, families=case.families,
+    r = smt.solve(hyps + [tm.not_(goal_term)], timeout_s=timeout or case.timeout, families=case.families,
                   ack_uf=case.ack_uf, tactic=case.tactic, keep_smt2=cross)
     if cross:
         smt.cross_check(r)
@@ -229,7 +229,7 @@ def _run_case(case: Case):
                     # one query for the conjunction; falls back to individual queries unless unsat
                     h = hyps_of(checks[-1])
                     conj = tm.and_(*[g.term for g in checks])
-                    r = _solve_goal(case, h, conj)
+                    r = _solve_goal(case, h, conj, timeout=min(case.timeout, 6.0))  # a shortcut only: fall back to one query per goal
                     if r.status == "unsat":
                         for g in checks:
                             out["goals"].append({"name": g.name, "kind": "check", "status": "discharged",
